@@ -100,6 +100,9 @@ void RetireList<T, D>::retire(T* data) {
   }
   do {
     node->next = get_node(head);
+    // 头节点的时间戳代表其后所有节点，因此不能早于刚观察到的head中的时间戳
+    // CAS失败后head可能已被其他线程更新为更晚的时间戳，每次尝试前需重新取时间
+    new_head = make_head(node, get_current_timestamp());
   } while (!_head.compare_exchange_weak(head, new_head,
                                         ::std::memory_order_acq_rel));
 }
